@@ -11,8 +11,11 @@
     activate / handleActivation (the broadcast goes to the members the
     activating agent knows), handleActorTopology (the receiver merges).  Every
     operation's messages are delivered before the next operation (what the
-    harness does); the joiner advertises no kind that is activated and issues no
-    activation itself (premise of the scenarios: [Act] is issued by old members).
+    harness does); the joiner advertises no kind that is activated.  [Act] may be
+    issued by an old member or by the joiner (who = m); the member that is asked
+    to spawn refuses when its own agent knows the id to be active (repair D26 —
+    before it a joiner that had not caught up yet obtained a second actor under
+    a known id: [step_gen false], JoinSpreadProofs.joiner_duplicate_before_D26).
 
     Definitions only, total and executable; activated maps are functions
     key -> option host.  Proofs: JoinSpreadProofs.v. *)
@@ -46,7 +49,11 @@ Inductive res := RNil | RPid (h : nat).
 Definition fresh_told (m : nat) (s : st) (rs : list nat) : list nat :=
   filter (fun r => Nat.ltb r m && negb (memb r (told s))) rs.
 
-Definition step (m : nat) (s : st) (o : op) : st * res :=
+Definition is_some {A} (o : option A) : bool := match o with Some _ => true | None => false end.
+
+(* [hostcheck]: handleActivationRequest refuses an id its own agent knows to be active (the repair
+   D26); false = the code before it, kept for the refutation example *)
+Definition step_gen (hostcheck : bool) (m : nat) (s : st) (o : op) : st * res :=
   match o with
   | Tell rs j =>
       let news := fresh_told m s rs in
@@ -58,16 +65,33 @@ Definition step (m : nat) (s : st) (o : op) : st * res :=
           omaps := if jnow then (fun i => if Nat.ltb i m then aunion (omaps s i) jm else omaps s i) else omaps s;
           jmap := jm |}, RNil)
   | Act who k sel =>
-      if negb (Nat.ltb who m) then (s, RNil) else
-      match omaps s who k with
-      | Some _ => (s, RNil)                               (* known to the activating agent *)
-      | None =>
-          if negb (Nat.ltb sel m) then (s, RNil) else     (* select returned nil *)
-          ({| told := told s; jtold := jtold s;
-              omaps := fun i => if Nat.ltb i m then aadd k sel (omaps s i) else omaps s i;
-              jmap := if memb who (told s) then aadd k sel (jmap s) else jmap s |}, RPid sel)
-      end
+      if Nat.ltb who m then
+        match omaps s who k with
+        | Some _ => (s, RNil)                               (* known to the activating agent *)
+        | None =>
+            if negb (Nat.ltb sel m) then (s, RNil) else     (* select returned nil *)
+            if hostcheck && is_some (omaps s sel k) then (s, RNil) else   (* the asked member knows the id is taken (fix D26) *)
+            ({| told := told s; jtold := jtold s;
+                omaps := fun i => if Nat.ltb i m then aadd k sel (omaps s i) else omaps s i;
+                jmap := if memb who (told s) then aadd k sel (jmap s) else jmap s |}, RPid sel)
+        end
+      else if Nat.eqb who m then
+        (* the joiner activates: it knows members only once its own agent has been told *)
+        match jmap s k with
+        | Some _ => (s, RNil)
+        | None =>
+            if negb (jtold s) then (s, RNil) else           (* no member with that kind in its view *)
+            if negb (Nat.ltb sel m) then (s, RNil) else
+            if hostcheck && is_some (omaps s sel k) then (s, RNil) else   (* fix D26 *)
+            (* the asked member spawns; the joiner broadcasts to everybody it knows: all *)
+            ({| told := told s; jtold := jtold s;
+                omaps := fun i => if Nat.ltb i m then aadd k sel (omaps s i) else omaps s i;
+                jmap := aadd k sel (jmap s) |}, RPid sel)
+        end
+      else (s, RNil)
   end.
+
+Definition step := step_gen true.
 
 Fixpoint run (m : nat) (s : st) (ops : list op) : st * list res :=
   match ops with
